@@ -17,6 +17,12 @@ open Wire Pen PenShow Red
     norm <SPIN|BINARY> <terms>                           → ok <normalised polynomial>
     hoc <SPIN|BINARY> <terms> <keep 0|1> <response variables> <row lab=val,...> <reduction u~v>p,...>
                                                          → ok <returned columns>|<reported energy>|<penalties satisfied>
+    hocr <SPIN|BINARY> <terms> <order lab,...|-> <choices u~v>p,...|-> <strength|-> <keep 0|1> <discard 0|1> <response vartype>
+         <response variables lab,...|-> <other field names hex,...|-> <info hexkey=hexvalue&...|-> <records sample:energy:vectors;...|->
+        the whole sample set `sample_poly` returns when the child returns the given sample set (`Red.samplePolyRecord`); with
+        strength `-` : `polymorph_response(response, poly, bqm)` itself with `penalty_strength=None` (`Red.polymorphRecord`)
+      → ok <variables>|<field names hex>|<penalty_satisfaction dtype>|<vartype>|<info hexkey=o.<hex> / r.<reduction> / s.<strength> &...>|<records sample:energy:sat:vectors;...>
+      → err ValueError | err KeyError | err ValueError:dup
 -/
 
 def parseTerm (s : String) : Option (List Label × Rat) :=
@@ -46,6 +52,54 @@ def showPoly (p : List (LTerm × Rat)) : String := String.intercalate ";" (sortS
 
 def showCons (cs : List (Pair × Label)) : String :=
   String.intercalate "," (cs.map fun c => s!"{showLabel c.1.1}~{showLabel c.1.2}>{showLabel c.2}")
+
+def parseRats (s : String) : Option (List Rat) := if s = "" then some [] else (s.splitOn ",").mapM parseRat?
+
+def fromHex? (s : String) : Option String :=
+  let rec go : List Char → List UInt8 → Option (List UInt8)
+    | [], acc => some acc.reverse
+    | [_], _ => none
+    | a :: b :: r, acc =>
+      let d (c : Char) : Option Nat :=
+        if '0' ≤ c ∧ c ≤ '9' then some (c.toNat - '0'.toNat) else if 'a' ≤ c ∧ c ≤ 'f' then some (c.toNat - 'a'.toNat + 10) else none
+      match d a, d b with
+      | some x, some y => go r (UInt8.ofNat (x * 16 + y) :: acc)
+      | _, _ => none
+  match go s.toList [] with
+  | some bytes => String.fromUTF8? ⟨bytes.toArray⟩
+  | none => none
+
+def parseRecord (s : String) : Option RecRow :=
+  match s.splitOn ":" with
+  | [smp, e, vec] => do
+    let smp ← parseRats smp; let e ← parseRat? e; let vec ← parseRats vec
+    pure { sample := smp, energy := e, vectors := vec }
+  | _ => none
+
+def parseInfo (s : String) : Option (List (String × String)) :=
+  if s = "-" then some [] else (s.splitOn "&").mapM fun kv =>
+    match kv.splitOn "=" with
+    | [k, v] => do let k ← fromHex? k; let v ← fromHex? v; pure (k, v)
+    | _ => none
+
+def showRats (l : List Rat) : String := String.intercalate "," (l.map showRat)
+
+def showInfoVal : InfoVal → String
+  | .opaque s => "o." ++ toHex s
+  | .reduction r => "r." ++ showCons r
+  | .strength q => "s." ++ showRat q
+
+def showOutSet (o : OutSet) : String :=
+  let dt := match o.satDtype with | .int64 => "int64" | .bool => "bool" | .float64 => "float64"
+  let vars := if o.vars.isEmpty then "-" else String.intercalate "," (o.vars.map showLabel)
+  s!"ok {vars}|{String.intercalate "," (o.fields.map toHex)}|{dt}|{if o.vt = VT.spin then "SPIN" else "BINARY"}|"
+    ++ String.intercalate "&" (o.info.map fun e => toHex e.1 ++ "=" ++ showInfoVal e.2) ++ "|"
+    ++ String.intercalate ";" (o.rows.map fun r => s!"{showRats r.sample}:{showRat r.energy}:{r.sat}:{showRats r.vectors}")
+
+def showHocErr : HocErr → String
+  | .indexValueError => "err ValueError"
+  | .energiesKeyError => "err KeyError"
+  | .duplicateField => "err ValueError:dup"
 
 def answer (line : String) : String :=
   match line.trimAscii.toString.splitOn " " with
@@ -116,6 +170,27 @@ def answer (line : String) : String :=
           s!"ok {hs} # " ++ String.intercalate "/" (out.map showRow)
         | _, _ => "err"
     | _, _, _, _, _, _, _ => "bad-op"
+  | ["hocr", vt, terms, order, choices, strength, keep, discard, respVt, respVars, names, info, rows] =>
+    match vtOf? vt, parseRaw terms, (csv order).mapM parseLabel?, parseChoices choices, vtOf? respVt, (csv respVars).mapM parseLabel?,
+          (csv names).mapM fromHex?, parseInfo info, (if rows = "-" then some [] else (rows.splitOn ";").mapM parseRecord) with
+    | some vt, some raw, some order, some choices, some rvt, some rv, some names, some info, some rows =>
+      -- the fields of the child that are carried over (`name not in {'sample', 'energy'}`, regenerated from the source)
+      let carried : List Nat := (List.range names.length).filter fun i => !(Generated.HocLayout.notCarried.contains (names.getD i ""))
+      let resp : SampleSetM := { vars := rv, names := carried.map (fun i => names.getD i ""),
+                                 rows := rows.map (fun r => { r with vectors := carried.map (fun i => r.vectors.getD i 0) }),
+                                 info := info, vt := rvt }
+      let show' (r : Except HocErr OutSet) := match r with
+        | .ok o => showOutSet o
+        | .error e => showHocErr e
+      if strength = "-" then
+        show' (polymorphRecord (normPoly vt raw) order (choices.map fun c => ((c.1, c.2.1), c.2.2)) none (keep = "1") (discard = "1") resp)
+      else match parseRat? strength with
+        | none => "bad-op"
+        | some q =>
+          match samplePolyRecord (fun _ _ => resp) vt raw (choices.map fun c => (c.1, c.2.1)) order q (keep = "1") (discard = "1") none with
+          | some r => show' r
+          | none => "err"
+    | _, _, _, _, _, _, _, _, _ => "bad-op"
   | ["hoc", vt, terms, keep, respVars, row, red] =>
     match vtOf? vt, parseRaw terms, (csv respVars).mapM parseLabel?, parseTerms row, parseChoices red with
     | some vt, some raw, some rv, some row, some red =>
